@@ -44,6 +44,8 @@ def run(chk, crate="rssl_hlsl", P="C01"):
     import c04
     c04.rule_decl_refix(chk, prefix=P + ".decl", crate=crate)
     rule_export_modind(chk, crate, P)
+    rule_stmt_eval(chk, crate, P)
+    rule_single_eval(chk, crate, P)
     if P == "C01":
         rule_conv(chk, P)
     rule_text(chk, P)
@@ -137,6 +139,212 @@ def rule_export_modind(chk, crate, P):
     for fam, _ok, cases, bad, _u in sorted(res):
         chk.ob("%s.modind/%s" % (P, fam), bad is None, "%d plain/const pairs get the same verdict from the exporter" % cases if bad is None else bad, where(gen), sample={"family": fam, "pairs": cases})
     chk.floor(P + ".floor/modind-pairs", sum(r[2] for r in res), 150, "plain/const expression pairs exported", where(gen))
+    return True
+
+
+def rule_stmt_eval(chk, crate, P):
+    """generate_statement read as a table: every ir::StatementKind with tagged children (sub-exporters are stand-ins that
+    wrap the tag) must come out as the statement kind of the same name with the same children in the same order; an
+    absent optional child stays absent."""
+    f = chk.facts
+    g = f.fn("generate_statement", crate)
+    kinds = f.variants("ir_statements::StatementKind", "rssl_ir")
+    if not g or not kinds:
+        return False
+    opt = lambda v: I.Enum("Option", "None") if v is None else I.Enum("Option", "Some", {"0": v})
+    ok = lambda v: I.Enum("Result", "Ok", {"0": v})
+    E = lambda t: I.Enum("Expression", "Tagged", {"tag": t})
+    stmt = lambda kind: I.Enum("Statement", None, {"kind": kind, "location": I.Opaque("location"), "attributes": []})
+    B = lambda t: I.Enum("ScopeBlock", None, {"0": [stmt(I.Enum("StatementKind", "Tagged", {"tag": t}))], "1": I.Opaque("scope")})
+
+    def deref(v):
+        return v.get() if isinstance(v, I.Ref) else v
+    ext = {"generate_expression": lambda a: ok(I.Enum("Expression", "Exported", {"tag": deref(a[0]).fields.get("tag")})),
+           "generate_scope_block": lambda a: ok([stmt(I.Enum("StatementKind", "Exported", {"tag": deref(a[0]).fields["0"][0].fields["kind"].fields["tag"]}))]),
+           "generate_statement_attribute": lambda a: ok(I.Opaque("attribute")),
+           "generate_for_init": lambda a: ok(I.Enum("InitStatement", "Exported", {"tag": deref(a[0]).fields.get("tag")})),
+           "generate_variable_definition": lambda a: ok(I.Enum("VarDef", "Exported", {"tag": deref(a[0]).fields.get("tag")})),
+           "generate_literal": lambda a: ok(I.Enum("Expression", "Exported", {"tag": "k"}))}
+    cases = {"Expression": [({"0": E("e")}, ["e"])], "If": [({"0": E("c"), "1": B("t")}, ["c", "t"])], "IfElse": [({"0": E("c"), "1": B("t"), "2": B("f")}, ["c", "t", "f"])],
+             "While": [({"0": E("c"), "1": B("b")}, ["c", "b"])], "DoWhile": [({"0": B("b"), "1": E("c")}, ["b", "c"])], "Switch": [({"0": E("c"), "1": B("b")}, ["c", "b"])],
+             "Break": [({}, [])], "Continue": [({}, [])], "Discard": [({}, [])], "DefaultLabel": [({}, [])], "Block": [({"0": B("b")}, ["b"])],
+             "Return": [({"0": opt(E("r"))}, ["r"]), ({"0": opt(None)}, [])],
+             "For": [({"0": I.Enum("ForInit", "Tagged", {"tag": "i"}), "1": opt(E("c")), "2": opt(E("n")), "3": B("b")}, ["i", "c", "n", "b"]),
+                     ({"0": I.Enum("ForInit", "Tagged", {"tag": "i"}), "1": opt(None), "2": opt(E("n")), "3": B("b")}, ["i", "n", "b"]),
+                     ({"0": I.Enum("ForInit", "Tagged", {"tag": "i"}), "1": opt(E("c")), "2": opt(None), "3": B("b")}, ["i", "c", "b"])],
+             "Var": [({"0": I.Enum("VarDef", "Tagged", {"tag": "v"})}, ["v"])], "CaseLabel": [({"0": I.Enum("Constant", "Int32", {"0": 3})}, ["k"])]}
+
+    def tags(v, out):
+        if isinstance(v, I.Enum):
+            if "tag" in v.fields and v.variant == "Exported":
+                out.append(v.fields["tag"])
+                return
+            for _, x in sorted(v.fields.items()):
+                tags(x, out)
+        elif isinstance(v, (list, tuple)):
+            for x in v:
+                tags(x, out)
+    n = 0
+    for k in kinds:
+        if k not in cases:
+            chk.unreadable("%s.stmt/%s" % (P, k), "statement kind %s" % k, "a statement kind the model has no case for", where(g))
+            continue
+        bad = None
+        for flds, want in cases[k]:
+            ip = I.Interp(f, max_depth=5, extern=ext)
+            try:
+                r = ip.apply(g, [stmt(I.Enum("StatementKind", k, dict(flds))), I.Enum("GenerateContext", None, {"module": I.Opaque("module")})])
+            except I.Unknown as e:
+                if "panicking" in str(e):
+                    bad = bad or "exporting a %s statement aborts (%s)" % (k, str(e)[:80])
+                    continue
+                chk.note("%s.stmt: generate_statement not readable on %s (%s); the shape rule decides" % (P, k, str(e)[:80]))
+                return False
+            n += 1
+            if not (isinstance(r, I.Enum) and r.variant == "Ok"):
+                continue        # a refusal is not a change of meaning
+            kind = r.fields["0"].fields.get("kind") if isinstance(r.fields["0"], I.Enum) else None
+            if not isinstance(kind, I.Enum):
+                chk.note("%s.stmt: result of generate_statement not readable; the shape rule decides" % P)
+                return False
+            got = []
+            tags(kind, got)
+            same_kind = kind.variant == k or (k == "Discard" and crate == "rssl_msl" and kind.variant == "Expression")
+            if not same_kind:
+                bad = bad or "a %s statement is exported as a %s statement" % (k, kind.variant)
+            elif got != want:
+                bad = bad or "a %s statement with parts %s is exported with parts %s (dropped, repeated or reordered)" % (k, want, got)
+        chk.ob("%s.stmt/%s" % (P, k), bad is None, bad or "exported as the same kind of statement with the same parts in order", where(g), sample={"kind": k})
+    chk.floor(P + ".floor/statement-cases", n, 15, "statement forms exported", where(g))
+    return True
+
+
+def rule_single_eval(chk, crate, P):
+    """An expression with an effect is evaluated exactly once by the emitted code: typed expressions of the model in which
+    one operand is `i++` (operators, ternary positions, subscript index, casts to scalar / vector / matrix / struct, casts
+    of an element or a swizzle of such a value) are handed to generate_expression; where the exporter accepts the node,
+    the `++` occurs exactly once in what it builds (an exporter that writes an operand several times, or drops it,
+    changes what the function computes). Walked by the reader; nothing is executed."""
+    import elabmodel as EM
+    import exportmodel as XM
+    f = chk.facts
+    gen = f.fn("generate_expression", crate)
+    if not gen:
+        return False
+    rt = XM.RoundTrip(f, crate)
+    el = rt.el
+    need = [t for t in ("Int32", "Bool", "Float32", "Float324", "Int323", "Float322x2", "Struct", "Float32[4]") if t not in el.u.names]
+    if need:
+        chk.unreadable(P + ".once/readable", "the type universe", "types missing from the model: %s" % need, where(gen))
+        return False
+    i32 = el.ety("Int32", 0, "Lvalue")
+    inc = el.run_unop("PostfixIncrement", i32)
+    if inc[0] != "Ok":
+        chk.unreadable(P + ".once/readable", "parse_expr_unaryop on `i++`", str(inc[1])[:80], where(gen))
+        return False
+    incn = inc[1]
+    var_l = el.operand_node("L", i32)
+
+    def replace(v, a, b):
+        if isinstance(v, I.Enum):
+            if v == a:
+                return b
+            return I.Enum(v.adt, v.variant, {k: replace(x, a, b) for k, x in v.fields.items()})
+        if isinstance(v, list):
+            return [replace(x, a, b) for x in v]
+        if isinstance(v, tuple):
+            return tuple(replace(x, a, b) for x in v)
+        return v
+
+    def subst(v):
+        return replace(v, var_l, incn)
+
+    def count(v):
+        n = 1 if isinstance(v, I.Enum) and v.adt == "UnaryOp" and v.variant == "PostfixIncrement" else 0
+        if isinstance(v, I.Enum):
+            n += sum(count(x) for x in v.fields.values())
+        elif isinstance(v, (list, tuple)):
+            n += sum(count(x) for x in v)
+        return n
+
+    def count_ir(v):
+        n = 1 if isinstance(v, I.Enum) and v == incn else 0
+        if n:
+            return 1
+        if isinstance(v, I.Enum):
+            return sum(count_ir(x) for x in v.fields.values())
+        if isinstance(v, (list, tuple)):
+            return sum(count_ir(x) for x in v)
+        return 0
+    T = lambda t: el.ety(t, 0, "Lvalue")
+    tid = lambda t: el.ety(t, 0, "Lvalue").fields["0"]
+    cases = {}      # family -> [(what, node, operands)]
+
+    def add(fam, what, res, operands):
+        if res[0] == "unreadable":
+            raise I.Unknown(res[1])
+        if res[0] == "Ok":
+            node = subst(res[1])
+            if count_ir(node) >= 1:
+                cases.setdefault(fam, []).append((what, node, operands))
+    try:
+        for op in ("Add", "Multiply", "LessThan", "Equality", "BooleanAnd", "LeftShift", "BitwiseAnd", "Sequence"):
+            for rt_ in ("Int32", "Float32"):
+                add("binop", "i++ %s %s" % (op, rt_), el.run_binop(op, i32, T(rt_)), {"L": i32, "R": T(rt_)})
+                add("binop", "%s %s i++" % (rt_, op), el.run_binop(op, T(rt_), i32) if rt_ != "Int32" else ("Err",), {"L": T(rt_), "R": i32})
+        for op in ("Minus", "Plus", "LogicalNot", "BitwiseNot"):
+            add("unop", "%s(i++)" % op, el.run_unop(op, i32), {"L": i32})
+        add("ternary", "i++ ? a : b", el.run_ternary(i32, T("Float32"), T("Float32")), {"C": i32, "L": T("Float32"), "R": T("Float32")})
+        add("ternary", "c ? i++ : b", el.run_ternary(T("Bool"), i32, T("Int32")), {"C": T("Bool"), "L": i32, "R": T("Int32")})
+        for comp in ("Float32[4]", "Float324", "Int323"):
+            ops_ = {"L": T(comp), "R": i32}
+            r = el.run_expr(I.Enum("Expression", "ArraySubscript", {"0": EM.located("L"), "1": EM.located("R")}), ops_)
+            if r[0] == "Ok":
+                # (the index operand is R here: `j++` takes the place of the variable R)
+                rn = el.operand_node("R", i32)
+                node = replace(r[1], rn, replace(incn, var_l, rn))
+                cases.setdefault("subscript", []).append(("%s[j++]" % comp, node, ops_))
+    except I.Unknown as e:
+        chk.unreadable(P + ".once/readable", "the typer's elaboration on the expression model", str(e)[:100], where(gen))
+        return False
+    for t in ("Float32", "Float324", "Int323", "Float322x2", "Struct", "Bool"):
+        cases.setdefault("cast", []).append(("(%s)(i++)" % t, I.Enum("Expression", "Cast", {"0": tid(t), "1": incn}), {"L": i32}))
+    for fam, lst in list(cases.items()):
+        if fam == "subscript":
+            for what, node, ops_ in list(lst):
+                for t in ("Struct", "Float324"):
+                    cases.setdefault("cast-of-element", []).append(("(%s)(%s)" % (t, what), I.Enum("Expression", "Cast", {"0": tid(t), "1": node}), ops_))
+    n = 0
+
+    def ir_count_any(v):
+        if isinstance(v, I.Enum):
+            if v.adt == "IntrinsicOp" and v.variant == "PostfixIncrement":
+                return 1
+            return sum(ir_count_any(x) for x in v.fields.values())
+        if isinstance(v, (list, tuple)):
+            return sum(ir_count_any(x) for x in v)
+        return 0
+    for fam, lst in sorted(cases.items()):
+        bad = None
+        for what, node, ops_ in lst:
+            want = ir_count_any(node)
+            x = rt.export(node, ops_)
+            if x[0] == "unreadable":
+                chk.unreadable("%s.once/%s" % (P, fam), "%s generate_expression on `%s`" % (crate, what), x[1], where(gen))
+                bad = "unreadable"
+                break
+            n += 1
+            if x[0] == "aborts":
+                bad = bad or "exporting `%s` aborts (%s)" % (what, x[1])
+            elif x[0] == "Ok":
+                got = count(x[1])
+                if got != want:
+                    bad = bad or "`%s`: the operand with the effect is written %d time(s) in the exported expression (it occurs %d time(s) in the typed expression): %s" % (
+                        what, got, want, "the effect is repeated" if got > want else "the effect is lost")
+        if bad != "unreadable":
+            chk.ob("%s.once/%s" % (P, fam), bad is None, bad or "%d expressions: `i++` is exported exactly as often as it occurs (or the node is refused)" % len(lst), where(gen),
+                   sample={"family": fam, "expressions": len(lst)})
+    chk.floor(P + ".floor/single-evaluation", n, 30, "expressions with an effect exported", where(gen))
     return True
 
 
